@@ -76,3 +76,33 @@ void h_extract_contiguous(void) {
   __CPROVER_assert(BITS(dst, 8 * NROWS) == BITS(&canary, 0), "contiguous extract: nothing written past 8*nrows doubles");
   VACUITY_CANARY();
 }
+
+// ---- S4: interleaved complex (m numbers) -> reim4 block layout -> back is the identity on ALL m numbers; the tables are
+// built by the real init_* functions with the dimension m the public constructors forward.  CVARIANT 0: ref, 1: fma
+#include "reim4/reim4_fftvec_private.h"
+void* init_reim4_from_cplx_precomp(REIM4_FROM_CPLX_PRECOMP* res, uint32_t m);
+void* init_reim4_to_cplx_precomp(REIM4_TO_CPLX_PRECOMP* res, uint32_t m);
+#ifndef CVARIANT
+#define CVARIANT 0
+#endif
+void h_cplx_roundtrip(void) {
+  REIM4_FROM_CPLX_PRECOMP f; REIM4_TO_CPLX_PRECOMP t;
+  init_reim4_from_cplx_precomp(&f, MM);
+  init_reim4_to_cplx_precomp(&t, MM);
+  static double a[2 * MM], r[2 * MM + 1], b[2 * MM + 1];
+  uint64_t ab[2 * MM];
+  for (int i = 0; i < 2 * MM; ++i) ab[i] = nondet_u64();
+  __CPROVER_array_copy((char*)a, (char*)ab);
+#if CVARIANT == 0
+  reim4_from_cplx_ref(&f, r, a);
+  reim4_to_cplx_ref(&t, b, r);
+#else
+  reim4_from_cplx_fma(&f, r, a);
+  reim4_to_cplx_fma(&t, b, r);
+#endif
+  uint64_t g = nondet_u64();
+  __CPROVER_assume(g < MM);
+  __CPROVER_assert(BITS(b, 2 * g) == BITS(a, 2 * g) && BITS(b, 2 * g + 1) == BITS(a, 2 * g + 1), "cplx -> reim4 -> cplx is the identity on all m complex numbers");
+  // (the order of the four numbers inside a block -- 0,2,1,3 -- is the library's choice; the property fixes only the round trip)
+  VACUITY_CANARY();
+}
